@@ -610,6 +610,46 @@ pub fn exec_proj<S: Sc + BaseFloat + crate::machine::Exec>(op: &str, fm: &str, a
             let fact = [1.0, 1.0, 2.0, 6.0, 24.0][n as usize];
             Tup(vec![I(ceil_i((d1 - g * d0).abs() / (eps * fact * amax.powi(n)))), B(some), I(ceil_i(resid))])
         }
+        // C02 with a SUBNORMAL determinant ("tiny but non-zero" at the very end of the range): the exact monomial matrix M (one
+        // non-zero entry per column, each +-1, +-2 or +-1/2 — the model checks that) is scaled natively by 2^-k, k chosen per
+        // dimension and scalar type so that the determinant is a power of two inside the subnormal range.  Every product is an
+        // exact power of two and every sum has a single non-zero term, so nothing rounds: the determinant is the scaled exact
+        // one, an inverse exists (det # 0), its entries are the reciprocals, and M inv(M) = inv(M) M = I bit for bit.
+        // <<determinant exact, subnormal and non-zero; an inverse exists; inverse exact both sides>>.  Dimensions 2 and 3
+        // (Matrix4::invert multiplies by 1/det, which overflows for every determinant below 2^-1022 / 2^-126 on the unchanged
+        // tree: DESIGN section 12).  route 1 = Transform::inverse_transform (Matrix3)
+        ("subnormal_det_proj", [mv, I(route)]) => {
+            let is32 = eps > 1.0e-10;
+            let two: S = NumCast::from(2.0f64).unwrap();
+            let (n, k): (usize, i32) = match mv { M2(_) => (2, if is32 { 69 } else { 524 }), M3(_) => (3, if is32 { 46 } else { 349 }), _ => return None };
+            let s = two.powi(-k);
+            let sf = f(s);
+            let tiny = if is32 { f32::MIN_POSITIVE as f64 } else { f64::MIN_POSITIVE };
+            // (entries column-major as f64, determinant before and after, inverse column-major)
+            let (e, d0, d1, inv): (Vec<f64>, f64, f64, Option<Vec<f64>>) = match mv {
+                M2(m) => { let a = *m * s; (m2v(&a).iter().map(|x| f(*x)).collect(), f(m.determinant()), f(a.determinant()), a.invert().map(|i| m2v(&i).iter().map(|x| f(*x)).collect())) }
+                M3(m) => { let a = *m * s;
+                    let i = if *route == 1 { <Matrix3<S> as Transform<Point2<S>>>::inverse_transform(&a) } else { a.invert() };
+                    (m3v(&a).iter().map(|x| f(*x)).collect(), f(m.determinant()), f(a.determinant()), i.map(|i| m3v(&i).iter().map(|x| f(*x)).collect())) }
+                _ => return None,
+            };
+            let mut want = d0; for _ in 0..n { want *= sf; }
+            let det_ok = d1 != 0.0 && d1.abs() < tiny && d1 == want;
+            let exact = match &inv { None => false, Some(iv) => {
+                let at = |m: &Vec<f64>, c: usize, r: usize| m[c * n + r];
+                let mut ok = true;
+                for c in 0..n { for r in 0..n {
+                    // reciprocal entries: inv[r][c] = 1 / a[c][r] where a[c][r] # 0, zero elsewhere
+                    let w = if at(&e, c, r) != 0.0 { 1.0 / at(&e, c, r) } else { 0.0 };
+                    ok &= at(iv, r, c) == w;
+                    let p1: f64 = (0..n).map(|j| at(&e, j, r) * at(iv, c, j)).sum();
+                    let p2: f64 = (0..n).map(|j| at(iv, j, r) * at(&e, c, j)).sum();
+                    let id = if c == r { 1.0 } else { 0.0 };
+                    ok &= p1 == id && p2 == id;
+                } }
+                ok } };
+            Tup(vec![B(det_ok), B(inv.is_some()), B(exact)])
+        }
         // C06 with an axis a hair off a coordinate axis: n' = n cos(tau) + m sin(tau) (n, m exact orthonormal, tau = 1e-9 .. 1e-3)
         // is built natively; everything else as small_rot_proj (the reference uses the axis actually built)
         ("tilt_rot_proj", [T(ty), T(route), V3(n), V3(m), V3(v), I(dc), I(tc)]) => {
